@@ -5,9 +5,9 @@
 //@@ attach: searchlite-core/src/api/reader.rs
 // Declared abstraction for bounded_levenshtein only: SmallVec (inline-capacity union) -> Vec.
 // With the union representation CBMC runs out of memory even for one symbolic character.
-//@@ rewrite: searchlite-core/src/api/reader.rs :: SmallVec<[char; 32]> ==> Vec<char>
-//@@ rewrite: searchlite-core/src/api/reader.rs :: SmallVec<[usize; 64]> = (0..=b_len).collect(); ==> Vec<usize> = (0..=b_len).collect();
-//@@ rewrite: searchlite-core/src/api/reader.rs :: SmallVec<[usize; 64]> = smallvec![0; b_len + 1]; ==> Vec<usize> = vec![0; b_len + 1];
+//@@ rewrite_in: searchlite-core/src/api/reader.rs :: ^fn bounded_levenshtein\( :: SmallVec<[char; 32]> ==> Vec<char>
+//@@ rewrite_in: searchlite-core/src/api/reader.rs :: ^fn bounded_levenshtein\( :: SmallVec<[usize; 64]> ==> Vec<usize>
+//@@ rewrite_in: searchlite-core/src/api/reader.rs :: ^fn bounded_levenshtein\( :: smallvec![ ==> vec![
 //@@ slice: cursor_chunk_step
 //@@ slice: cursor_fields
 //@@ slice: cursor_layout
